@@ -1,10 +1,10 @@
 (* Gen = Model for the methods of GeminiServerProtocol translated from /repo/src/nauyaca/server/protocol.py
-   (Gen/ServerGen.v, regenerated on every run by translate/py2coq_server.py).  Statements only; the proofs are in
+   (Gen/ServerGen.v, regenerated on every run by translate/py2coq_server.py and py2coq_server2.py).  Statements only; the proofs are in
    Proofs/EquivServer_proofs.v.  The callees of each method are instantiated by the model's functions, so the
    theorems compose: the model's step function is the code's callbacks, method by method. *)
 From Coq Require Import List NArith ZArith Bool.
-From NV Require Import Prelude.Str Prelude.Res Model.Url Model.Titan Model.ServerProto Equiv.ServerGlue Gen.ServerGen.
-From NV Require Proofs.EquivServer_proofs.
+From NV Require Import Prelude.Str Prelude.Res Prelude.Utf8 Model.Url Model.Titan Model.ServerProto Equiv.ServerGlue Gen.ServerGen.
+From NV Require Proofs.EquivServer_proofs Proofs.EquivServer2_proofs.
 Import ListNotations.
 
 (* data_received *)
@@ -53,3 +53,69 @@ Theorem start_titan_upload_tie : forall mw up ip fp s,
   gen_start_titan_upload mw up ip fp s = start_upload up s.
 Proof. exact EquivServer_proofs.start_titan_upload_tie. Qed.
 Print Assumptions start_titan_upload_tie.
+
+(* the four done-callbacks: the model's task_done, once the finished task has been taken off the pending list,
+   is the code's callback applied to the task's (well-typed) result *)
+Theorem handle_middleware_result_tie : forall handler up s0 id rq rest,
+  take_task id (pending s0) = (Some (TMw (rq_line rq)), rest) ->
+  (forall allow text, task_done handler up s0 id (OMw allow text) =
+     gen_handle_middleware_result send_error send_rejection (fun s r => route handler s (rq_line r)) (set_pending s0 rest) (TRet (allow, text)) rq) /\
+  (forall m, task_done handler up s0 id (ORaise m) =
+     gen_handle_middleware_result send_error send_rejection (fun s r => route handler s (rq_line r)) (set_pending s0 rest) (TExc m) rq).
+Proof. exact EquivServer2_proofs.handle_middleware_result_tie. Qed.
+Print Assumptions handle_middleware_result_tie.
+
+Theorem handle_titan_middleware_result_tie : forall handler up s0 id rest,
+  take_task id (pending s0) = (Some TTitanMw, rest) ->
+  (forall allow text, task_done handler up s0 id (OMw allow text) =
+     gen_handle_titan_middleware_result send_error send_rejection (start_upload up) (set_pending s0 rest) (TRet (allow, text))) /\
+  (forall m, task_done handler up s0 id (ORaise m) =
+     gen_handle_titan_middleware_result send_error send_rejection (start_upload up) (set_pending s0 rest) (TExc m)).
+Proof. exact EquivServer2_proofs.handle_titan_middleware_result_tie. Qed.
+Print Assumptions handle_titan_middleware_result_tie.
+
+Theorem handle_async_handler_result_tie : forall handler up s0 id rq rest,
+  take_task id (pending s0) = (Some (THandler (rq_line rq)), rest) ->
+  (forall r, task_done handler up s0 id (OResp r) =
+     gen_handle_async_handler_result send_error send_response (set_pending s0 rest) (TRet r) rq) /\
+  (forall m, task_done handler up s0 id (ORaise m) =
+     gen_handle_async_handler_result send_error send_response (set_pending s0 rest) (TExc m) rq).
+Proof. exact EquivServer2_proofs.handle_async_handler_result_tie. Qed.
+Print Assumptions handle_async_handler_result_tie.
+
+Theorem handle_titan_upload_result_tie : forall handler up s0 id rest,
+  take_task id (pending s0) = (Some TUpload, rest) ->
+  (forall r, task_done handler up s0 id (OResp r) =
+     gen_handle_titan_upload_result send_error send_response (set_pending s0 rest) (TRet r)) /\
+  (forall m, task_done handler up s0 id (ORaise m) =
+     gen_handle_titan_upload_result send_error send_response (set_pending s0 rest) (TExc m)).
+Proof. exact EquivServer2_proofs.handle_titan_upload_result_tie. Qed.
+Print Assumptions handle_titan_upload_result_tie.
+
+(* _handle_gemini_request *)
+Theorem handle_gemini_request_tie : forall ip6 handler mw up ip fp s url,
+  gen_handle_gemini_request send_error (fun s r => route handler s (rq_line r)) mw up ip fp ip6 s url = handle_gemini ip6 handler mw ip fp s url.
+Proof. exact EquivServer2_proofs.handle_gemini_request_tie. Qed.
+Print Assumptions handle_gemini_request_tie.
+
+(* _route_request *)
+Theorem route_request_tie : forall handler s rq,
+  gen_route_request send_error send_response handler s rq = route handler s (rq_line rq).
+Proof. exact EquivServer2_proofs.route_request_tie. Qed.
+Print Assumptions route_request_tie.
+
+(* _send_rejection *)
+Theorem send_rejection_tie : forall s text,
+  gen_send_rejection send_error send_response s text = send_rejection s text.
+Proof. exact EquivServer2_proofs.send_rejection_tie. Qed.
+Print Assumptions send_rejection_tie.
+
+(* _send_response.  `reenc` stands for  b.decode("utf-8", errors="ignore").encode("utf-8")  (CPython's lenient decoder is
+   not modelled); the hypothesis is the one fact about it that the model's encode_replace_upto re-states: applied to the
+   first 1024 bytes of an over-long encoded meta it drops the cut-off trailing character. *)
+Theorem send_response_tie : forall (reenc : str -> str),
+  (forall m, (1024 < N.of_nat (length (encode_replace m)))%N ->
+             reenc (take 1024 (encode_replace m)) = encode_replace_upto 1024 m) ->
+  forall s r, gen_send_response reenc s r = send_response s r.
+Proof. exact EquivServer2_proofs.send_response_tie. Qed.
+Print Assumptions send_response_tie.
